@@ -53,12 +53,12 @@ type JournalEntry struct {
 	ErrMsg   string        `json:"err_msg,omitempty"` // free text (not an observable)
 	Affected int64         `json:"affected"`
 	LastID   int64         `json:"last_id"`
-	NRows    int           `json:"nrows"`               // rows of a result set
-	InTx     bool          `json:"in_tx"`               // a transaction was open on the connection when the call arrived
-	OpenTx   bool          `json:"open_tx,omitempty"`   // RESET/CLOSE only: returned to the pool / closed inside an open transaction
-	Implicit bool          `json:"implicit,omitempty"`  // BEGIN that implicitly committed an open transaction
-	Injected bool          `json:"injected,omitempty"`  // outcome produced by fault injection
-	DSNTag   string        `json:"dsn_tag,omitempty"`   // value of the DSN parameter `tag` of the connection (who opened it)
+	NRows    int           `json:"nrows"`              // rows of a result set
+	InTx     bool          `json:"in_tx"`              // a transaction was open on the connection when the call arrived
+	OpenTx   bool          `json:"open_tx,omitempty"`  // RESET/CLOSE only: returned to the pool / closed inside an open transaction
+	Implicit bool          `json:"implicit,omitempty"` // BEGIN that implicitly committed an open transaction
+	Injected bool          `json:"injected,omitempty"` // outcome produced by fault injection
+	DSNTag   string        `json:"dsn_tag,omitempty"`  // value of the DSN parameter `tag` of the connection (who opened it)
 }
 
 // ---- faults ----------------------------------------------------------------
